@@ -62,7 +62,9 @@ def _alpha(rng):
         return rng.choice([1e-12, -1e-12, 1e-6, -1e-6, 5e-324, -5e-324])
     if r < 0.70:
         return round(rng.uniform(-1, 1), 4)
-    return round(rng.choice([-1, 1]) * rng.uniform(1.0, 8.0), 4)
+    if r < 0.94:
+        return round(rng.choice([-1, 1]) * rng.uniform(1.0, 8.0), 4)
+    return round(rng.choice([-1, 1]) * rng.uniform(8.0, 40.0), 3)   # far out on the extrapolation sides
 
 
 def _gen_hist(rng, code):
@@ -105,6 +107,7 @@ def gen(rng: random.Random, k: int, tier: str) -> dict:
            "switch_w": rng.choice([0.0, 0.5, 1.5, 3.0]), "fault_rate": rng.choice([0.0, 0.1, 0.3])}
     ops, live, nextid = [], {}, 0
     a0s = {}
+    codes = {}
     cur = "numpy"
     budget = 120.0 * (3 if deep else 1)
     if rng.random() < 0.7:
@@ -114,7 +117,7 @@ def gen(rng: random.Random, k: int, tier: str) -> dict:
     for _ in range(cfg["len"]):
         if budget <= 0:
             break
-        w = {"create": 2.0 if len(live) < 4 else 0.0, "call": 8.0 if live else 0.0, "switch": cfg["switch_w"],
+        w = {"create": 2.0 if len(live) < 4 else 0.0, "call": 8.0 if live else 0.0, "callmany": 2.5 if len(live) > 1 else 0.0, "switch": cfg["switch_w"],
              "drop": 0.5 if live else 0.0, "gc": 3 * cfg["fault_rate"]}
         if not live:
             w["create"] = 10.0
@@ -123,10 +126,20 @@ def gen(rng: random.Random, k: int, tier: str) -> dict:
         if kind == "create":
             code = rng.choice(cfg["codes"])
             op = {"op": "create", "id": nextid, "code": code, "hist": _gen_hist(rng, code)}
+            if live and rng.random() < 0.4:
+                # a sibling of a live instance: same code, same number of systematics and histograms, other numbers
+                sib = rng.choice(sorted(live))
+                code = codes[sib]
+                for _ in range(20):
+                    h = _gen_hist(rng, code)
+                    if len(h) == live[sib]:
+                        op = {"op": "create", "id": nextid, "code": code, "hist": h}
+                        break
             if code == 4 and rng.random() < 0.4:
                 op["alpha0"] = rng.choice([0.5, 1.5, 2.0, 3.0])   # exactly representable breakpoints
             ops.append(op)
             live[nextid] = len(ops[-1]["hist"])
+            codes[nextid] = code
             a0s[nextid] = op.get("alpha0", 1.0)
             nextid += 1
             budget -= 0.5
@@ -145,6 +158,14 @@ def gen(rng: random.Random, k: int, tier: str) -> dict:
                                                  float(np.nextafter(np.float32(b), np.float32(math.inf))), float(np.nextafter(np.float32(b), np.float32(-math.inf)))])
             ops.append({"op": "call", "id": oid, "alphas": al})
             budget -= COST[cur]
+        elif kind == "callmany":
+            # instances of one code with the same number of systematics, same alpha-set shape, evaluated back to back
+            oid = rng.choice(sorted(live))
+            same = [i for i in sorted(live) if live[i] == live[oid] and codes[i] == codes[oid]]
+            ids = rng.sample(same, min(len(same), rng.randint(2, 3))) if len(same) > 1 else rng.sample(sorted(live), min(len(live), 2))
+            na = rng.choice([1, 2, 3, 5])
+            ops.append({"op": "callmany", "calls": [{"id": i, "alphas": [[_alpha(rng) for _ in range(na)] for _ in range(live[i])]} for i in ids]})
+            budget -= COST[cur] * len(ids)
         elif kind == "switch":
             cur = rng.choice(backends)
             ops.append({"op": "switch", "backend": cur, "precision": rng.choice(cfg["precs"])})
@@ -169,6 +190,10 @@ def simplify(op):
         if len(al[0]) > 1:
             for j in range(len(al[0])):
                 yield dict(op, alphas=[[row[j]] for row in al])
+    elif op["op"] == "callmany":
+        if len(op["calls"]) > 1:
+            for i in range(len(op["calls"])):
+                yield dict(op, calls=op["calls"][:i] + op["calls"][i + 1:])
     elif op["op"] == "create":
         h = op["hist"]
         if len(h) > 1:
@@ -251,7 +276,26 @@ class World:
             return "core"
         return "extrap_hi" if a > 0 else "extrap_lo"
 
-    def op_call(self, op):
+    def op_callmany(self, op):
+        """Several live instances are evaluated back to back BEFORE anything is judged: the oracles build fresh
+        instances, and a construction in between could itself repair (or disturb) state shared between instances."""
+        pend = []
+        tl = self.pyhf.tensorlib
+        ftype = np.float64 if self.reg[1] == "64b" else np.float32
+        for c in op["calls"]:
+            o = self.objs.get(c["id"])
+            if o is None or len(c["alphas"]) != len(o["hist"]):
+                continue
+            al = np.asarray(c["alphas"], dtype=np.float64).astype(ftype).astype(np.float64)
+            try:
+                pend.append((c, ("ok", np.asarray(tl.tolist(o["obj"](tl.astensor(al))), dtype=np.float64))))
+            except Exception as e:
+                pend.append((c, ("exc", e)))
+        if len(pend) > 1:
+            self.ctx.probe("calls_back_to_back")
+        return [self.op_call({"op": "call", "id": c["id"], "alphas": c["alphas"]}, pre=r) for c, r in pend]
+
+    def op_call(self, op, pre=None):
         o = self.objs.get(op["id"])
         if o is None or len(op["alphas"]) != len(o["hist"]):
             return "noop"
@@ -269,7 +313,12 @@ class World:
             return np.asarray(tl.tolist(f(tl.astensor(al))), dtype=np.float64)
 
         try:
-            got = call(o["obj"])
+            if pre is None:
+                got = call(o["obj"])
+            elif pre[0] == "exc":
+                raise pre[1]
+            else:
+                got = pre[1]
         except Exception as e:
             ctx.fail("call_ok", dict(sig0, cls="raises"), f"code{code} call with shape {shape} after last shape {o['last_shape']} raised {type(e).__name__}: {e}; backend={self.reg}")
             o["last_shape"] = shape
@@ -328,7 +377,13 @@ class World:
                         v, scale = ref(float(dn), float(nom), float(up), float(a))
                         g = got[s, h, a_i, b]
                         ctx.c.oracle_evals["formula_points"] += 1
-                        tol = 64 * eps * scale + 1e-300
+                        tol = 64 * eps * scale + (2e-38 if eps > 1e-10 else 1e-300)   # plus the smallest normal number: underflow
+                        if eps > 1e-10 and abs(v) > 1e37:
+                            # beyond the float32 range: overflow to inf (or a finite value within tolerance) is the only
+                            # thing single precision can do
+                            ctx.probe("float32_overflow_region")
+                            if np.isinf(g) and (g > 0) == (v > 0):
+                                continue
                         if not (abs(g - v) <= tol):
                             ctx.fail("formula" if which == "fast" else "fast_slow",
                                      dict(sig0, cls=which + "_vs_formula", regime=self._regime(a)),
